@@ -67,6 +67,9 @@ def series_case(draw, tier):
     if len(set(z)) == 1:
         z[0] += 1.0
     noise = draw(st.sampled_from([0.01, 0.1, 1.0]))
+    # a nearly dried-out simulation: tiny values with a tiny (non-zero)
+    # spread against ordinary observations
+    tiny_sim = draw(st.integers(0, 7)) == 0
     negative = draw(st.integers(0, 4)) == 0
     tr = draw(trans_spec(negative))
     nens = draw(st.integers(1, 5))
@@ -80,6 +83,7 @@ def series_case(draw, tier):
             for p in sorted(pos)]
     return {"n": n, "mag": mag, "spread": spread, "z": z, "e": e,
             "noise": noise, "negative": negative, "trans": tr,
+            "tiny_sim": tiny_sim,
             "ens_e": ens_e, "cont": cont,
             "container": draw(st.sampled_from(["ndarray", "ndarray", "list",
                                                "series", "strided"])),
@@ -97,6 +101,9 @@ def build_series(case):
     sp = case["spread"]
     obs = case["mag"] * np.exp(sp * z / 4)
     sim = case["mag"] * np.exp(sp * (z + case["noise"] * e) / 4)
+    if case.get("tiny_sim") and case["trans"]["name"] == "Identity" \
+            and not case["negative"]:
+        sim = 1e-8 * (2.0 + np.tanh(e))
     if case["negative"]:
         obs, sim = -obs, -sim
     ens = case["mag"] * np.exp(
@@ -119,7 +126,10 @@ def ref_scores(to, ts, btype):
     out["nse"] = 1 - np.mean((ts - to)**2) / np.mean((to - mo)**2)
     so = math.sqrt(np.mean((to - mo)**2))
     ss = math.sqrt(np.mean((ts - ms)**2))
-    if ss > 1e-6 * abs(ms) and ss > 1e-8:
+    # (the functions return NaN when a spread is below 1e-10; the reference
+    # is evaluated when the simulated spread is ten times that and not
+    # dominated by rounding)
+    if ss > 1e-6 * abs(ms) and ss > 1e-9:
         r = pearson(to, ts)
         out["kge"] = 1 - math.sqrt((1 - ms / mo)**2 + (1 - ss / so)**2
                                    + (1 - r)**2)
